@@ -358,7 +358,7 @@ def h_update(sp, max_listeners=3, frames=2):
 
 HARNESSES = {
     'twin': dict(fn=h_twin, nontrivial=COMP_OPS + NULLARY + PROC_OPS,
-                 required=COMP_OPS + NULLARY + PROC_OPS + ['raises']),
+                 required=COMP_OPS + NULLARY + PROC_OPS),
     'proto': dict(fn=h_proto, nontrivial=['from-dict', 'from-method', 'from-sub-method', 'name-clash', 'sub-init_methods'],
                   required=['from-dict', 'from-method', 'from-sub-method', 'from-default', 'name-clash', 'sub-init_methods']),
     'update': dict(fn=h_update, nontrivial=['relayed'], required=['relayed'], split=False),
